@@ -57,13 +57,13 @@ impl Property for C11 {
     }
     fn cases(&self, tier: Tier) -> u64 {
         match tier {
-            Tier::Quick => 6_000,
+            Tier::Quick => 60_000,
             Tier::Thorough => 6_000_000,
         }
     }
     fn min_nontrivial(&self, tier: Tier) -> u64 {
         match tier {
-            Tier::Quick => 1_500,
+            Tier::Quick => 15_000,
             Tier::Thorough => 1_500_000,
         }
     }
